@@ -113,7 +113,7 @@ def run_case(case, ctx):
     def d(a, b):
         return tr.dist(cfg, L, dim, T[a][0], T[b][0])
 
-    if block.get("how"):
+    if block.get("how") == "ctor+append":
         ctx.count("library-chosen-time-stamps")
         ok = all(b > a for a, b in zip(times, times[1:]))
         ctx.check("C07.times-increasing", ok, {"times": times, "what": "time course continued with append(emulsion) without a time"}, tags)
